@@ -504,7 +504,7 @@ const invalidText = `{"unterminated`
 
 // parseDoc reads a document printed by jd -p, independently of jd (encoding/json, yaml.v2).
 func parseDoc(t *codec.Table, s string, isYaml bool) (codec.Node, bool) {
-	if strings.TrimSpace(s) == "" {
+	if strings.Trim(s, " \t\r\n") == "" {
 		return codec.Void(), true
 	}
 	if !isYaml {
